@@ -56,7 +56,7 @@ func TestC14(t *testing.T) {
 		cases = append(cases, mon.CaseSpec{Name: "reset", Spec: spec{Kind: "reset", Proto: "pair", RMs: 5, MaxMs: 2000, Async: true}})
 		cases = append(cases, mon.CaseSpec{Name: "syncfail", Spec: spec{Kind: "syncfail", Proto: "pair", RMs: 10, MaxMs: 0, Async: false}})
 		cases = append(cases, mon.CaseSpec{Name: "pairbusy", Spec: spec{Kind: "pairbusy", Proto: []string{"pair", "pair1"}[i%2], RMs: []int{5, 20}[i%2], MaxMs: []int{0, 40}[(i/2)%2], Async: true}})
-		cases = append(cases, mon.CaseSpec{Name: "capfine", Spec: spec{Kind: "capfine", Proto: "pair", RMs: 250, MaxMs: 1000, Async: true}})
+		cases = append(cases, mon.CaseSpec{Name: "capfine", Spec: spec{Kind: "capfine", Proto: "pair", RMs: 300, MaxMs: 1200, Async: true}})
 	}
 	r.Run(cases, func(c *mon.Case) {
 		sp := c.Spec.(spec)
@@ -562,10 +562,13 @@ func runPairBusy(c *mon.Case, sp spec, g *rig) {
 	c.Nontrivial()
 }
 
-// runCapFine: with ReconnectTime 250ms and MaxReconnectTime 1s the delay, once it has reached the
-// maximum, stays there.  After the first gap of at least the maximum, three consecutive gaps above
-// the maximum by more than the canary-calibrated slack are a violation (a single long gap is a
-// scheduling artefact, not a verdict).
+// runCapFine: with ReconnectTime 300ms and MaxReconnectTime 1.2s the delay, once it has reached the
+// maximum, stays there.  After the first gap of at least the maximum, five further gaps are taken.
+// Two rules, each needing a *run* of gaps (a single long gap is a scheduling artefact):
+//   - three consecutive gaps above the maximum by more than the canary-calibrated slack of 1.2;
+//   - the smallest of the five above the maximum by more than 30ms + 4x the worst oversleep the
+//     scheduler canary (1 ms sleeps throughout the case) saw: a delay that settled above the
+//     ceiling shows in every gap, a scheduling delay would have to hit all five.
 func runCapFine(c *mon.Case, sp spec, g *rig) {
 	g.vd.SetDefault(vt.Outcome{Kind: vt.Refuse})
 	if err := g.d.Dial(); err != nil {
@@ -575,7 +578,8 @@ func runCapFine(c *mon.Case, sp spec, g *rig) {
 	reached := -1
 	over := 0
 	worst := time.Duration(0)
-	for i := 1; i <= 24; i++ {
+	var settled []time.Duration
+	for i := 1; i <= 30; i++ {
 		if !g.awaitAttempt(i, g.Max, "capfine") {
 			return
 		}
@@ -591,6 +595,7 @@ func runCapFine(c *mon.Case, sp spec, g *rig) {
 			}
 			continue
 		}
+		settled = append(settled, gap)
 		if mon.UpperBoundExceeded(gap, g.Max) {
 			over++
 			if gap > worst {
@@ -603,7 +608,17 @@ func runCapFine(c *mon.Case, sp spec, g *rig) {
 			c.Violate("dial/backoff-exceeds-max", "after the delay reached the maximum, three consecutive gaps between connection attempts exceed MaxReconnectTime %v (worst %v; scheduler canary worst oversleep %v): %s", g.Max, worst, mon.CanaryWorst(), renderLog(log[reached-1:]))
 			break
 		}
-		if i >= reached+4 {
+		if len(settled) >= 5 {
+			min := settled[0]
+			for _, x := range settled {
+				if x < min {
+					min = x
+				}
+			}
+			if w := mon.CanaryWorst(); min-g.Max > 30*time.Millisecond+4*w {
+				c.Violate("dial/backoff-exceeds-max", "after the delay reached the maximum, every one of five consecutive gaps between connection attempts exceeds MaxReconnectTime %v by at least %v (gaps %v; scheduler canary worst oversleep %v): %s", g.Max, min-g.Max, settled, w, renderLog(log[reached-1:]))
+			}
+			c.Count("settled_gap_runs_checked", 1)
 			break
 		}
 	}
